@@ -634,4 +634,45 @@ theorem dur_of_full_loss (d : Disk) (h : SyncLe d) : Dur (d.powerLoss (fun _ => 
   exact ⟨⟨fun i x hx => key _ x hx, fun x hx => key _ x hx, fun x hx => key _ x hx⟩,
     fun f x hx => by rw [key f x hx]; exact Nat.le_refl _⟩
 
+theorem settle_get (d : Disk) (f : FileId) :
+    d.settle.get f = (d.get f).map (fun x => { x with synced := x.data.length }) := by
+  unfold Disk.settle Disk.get
+  simp only
+  induction d.files with
+  | nil => rfl
+  | cons e fs ih =>
+    obtain ⟨a, x⟩ := e
+    simp only [List.map_cons, fget]
+    by_cases h : a = f
+    · simp [h]
+    · simp [h, ih]
+
+theorem settle_WF (d : Disk) (hw : d.WF) : d.settle.WF := by
+  unfold Disk.WF FKeysNodup Disk.settle at *
+  simp only [List.map_map]
+  have : (d.files.map ((fun x => x.1) ∘ fun (p : FileId × File) =>
+      (p.1, { p.2 with synced := p.2.data.length }))) = d.files.map (·.1) := by
+    apply List.map_congr_left
+    intro p _
+    rfl
+  rw [this]; exact hw
+
+theorem settle_synced (d : Disk) (f : FileId) (x : File) (h : d.settle.get f = some x) :
+    x.synced = x.data.length := by
+  rw [settle_get] at h
+  cases hg : d.get f with
+  | none => simp [hg] at h
+  | some y => simp only [hg, Option.map_some, Option.some.injEq] at h; subst h; rfl
+
+theorem dur_settle (d : Disk) : Dur d.settle ∧ SyncLe d.settle :=
+  ⟨⟨fun _ x hx => settle_synced d _ x hx, fun x hx => settle_synced d _ x hx,
+    fun x hx => settle_synced d _ x hx⟩,
+   fun f x hx => by rw [settle_synced d f x hx]; exact Nat.le_refl _⟩
+
+theorem settle_data (d : Disk) (f : FileId) : (d.settle.get f).map (·.data) = (d.get f).map (·.data) := by
+  rw [settle_get]; cases d.get f <;> rfl
+
+theorem settle_isSome (d : Disk) (f : FileId) : (d.settle.get f).isSome = (d.get f).isSome := by
+  rw [settle_get]; cases d.get f <;> rfl
+
 end CasModel
